@@ -5,6 +5,7 @@ import JaxVerif.Model.Config
 import JaxVerif.Spec.Calls
 import JaxVerif.Generated.Skeleton
 import JaxVerif.Lemmas.Disable
+import JaxVerif.Source.Wrappers
 
 namespace JV
 
@@ -67,5 +68,16 @@ theorem C19_late_test_differs :
 /-! non-vacuity -/
 example : str2bool (.str "TrUe".toList) = some true ∧ str2bool (.str "FALSE".toList) = some false ∧
     str2bool (.str "yes".toList) = none ∧ str2bool (.str "".toList) = none ∧ str2bool .other = none := by decide
+
+/-- **the switch as tested today**: with `jaxtyping_disable` set or `__no_type_check__` present, the new-style wrapper
+    translated from the current source on this run does nothing but call the function — no bind, no context, no
+    typechecker: the thread state is what the body leaves, the observations are the body's. -/
+theorem C19_source_disabled (sk : Skel) (ps : List Param) (ret : Option (LType × Obj)) (bindOk noTc rs nw : Bool)
+    (B : TState → TState × List Obs) (e : Exit) (st : TState) (h : (st.disable || noTc) = true) :
+    runWrapper ⟨sk, ps, ret, bindOk, noTc, B, e, rs, nw, none, .plain, Generated.newImplCode⟩ Generated.newWrapperCode st
+      = some (if bindOk then ((B st).1, [.bodyStart] ++ (B st).2 ++ [.outcome (exitOutcome e)])
+              else (st, [.outcome .bindError])) := by
+  rw [source_new_wrapper]
+  cases bindOk <;> simp [callStep, goodWrap, h]
 
 end JV
